@@ -259,12 +259,14 @@ func (s *seqCounters) add(seqNr uint32) {
 			if seqNr > s.counters[i-1].seqNr {
 				if s._nrCounters < s.windowSize {
 					// Shift counters i to s._nrCounters-1 to i+1 to s._nrCounters
-					copy(s.counters[i+1:s._nrCounters], s.counters[i:s._nrCounters-1])
+					copy(s.counters[i+1:s._nrCounters+1], s.counters[i:s._nrCounters])
+					s.counters[i] = seqCounter{seqNr: seqNr, count: 1}
+					s._nrCounters++
 				} else {
 					// Shift counters 1 to i-1 to 0 to i-2
-					copy(s.counters[1:i], s.counters[:i-1])
+					copy(s.counters[:i-1], s.counters[1:i])
+					s.counters[i-1] = seqCounter{seqNr: seqNr, count: 1}
 				}
-				s.counters[i-1] = seqCounter{seqNr: seqNr, count: 1}
 				return
 			}
 		}
